@@ -23,12 +23,9 @@ def missStep (b : Build) (rows : List Row) (acc : List Row × Option Nat × Opti
               let between := (rows.drop (l + 1)).take (p.1 - (l + 1))
               if between.all Row.isGap then pure (out ++ between)     -- only gaps separate the two contigs: keep them all
               else
-                match rows.getD (p.1 - 1) default with
-                | .gap g => pure (out ++ [Row.gap g])
-                | .frag _ =>
-                  match b.joinGap with
-                  | some g => pure (out ++ [Row.gap g])
-                  | none => throw .attribute
+                match b.joinGap with
+                | some g => pure (out ++ [Row.gap g])
+                | none => throw .attribute
             else pure out
           | none => pure out
         pure (out ++ [Row.frag f], some p.1, (match first with | some x => some x | none => some p.1))
@@ -46,11 +43,9 @@ def sepBefore (b : Build) (rows : List Row) (la : Option Nat) (i : Nat) : R (Lis
   | some l =>
     if l = i - 1 then .ok []
     else if ((rows.drop (l + 1)).take (i - (l + 1))).all Row.isGap then .ok ((rows.drop (l + 1)).take (i - (l + 1)))
-    else match rows.getD (i - 1) default with
-      | .gap g => .ok [Row.gap g]
-      | .frag _ => match b.joinGap with
-        | some g => .ok [Row.gap g]
-        | none => .error .attribute
+    else match b.joinGap with
+      | some g => .ok [Row.gap g]
+      | none => .error .attribute
 
 theorem missStep_gap (b : Build) (rows : List Row) (acc) (i : Nat) (g : Gap) :
     missStep b rows acc (i, .gap g) = .ok acc := rfl
@@ -74,12 +69,9 @@ theorem missStep_missing (b : Build) (rows : List Row) (out la fi) (i : Nat) (f 
       by_cases hb : ((rows.drop (l + 1)).take (i - (l + 1))).all Row.isGap = true
       · simp [hb, bind, Except.bind, pure, Except.pure, Except.map]
       · simp only [hb, Bool.false_eq_true, ↓reduceIte]
-        cases rows.getD (i - 1) default with
-        | gap g => simp [bind, Except.bind, pure, Except.pure, Except.map]
-        | frag f' =>
-          cases b.joinGap with
-          | none => simp [bind, Except.bind, pure, Except.pure, Except.map, throw, throwThe, MonadExceptOf.throw, Except.instMonad]
-          | some g => simp [bind, Except.bind, pure, Except.pure, Except.map]
+        cases b.joinGap with
+        | none => simp [bind, Except.bind, pure, Except.pure, Except.map, throw, throwThe, MonadExceptOf.throw, Except.instMonad]
+        | some g => simp [bind, Except.bind, pure, Except.pure, Except.map]
 
 
 /-! ### facts about row lists -/
@@ -195,28 +187,15 @@ theorem sepBefore_ok (b : Build) (rows : List Row) (la : Option Nat) (i : Nat) (
           simp only [List.length_take, List.length_drop] at this
           omega
       · rw [if_neg hb] at h
-        cases hr : rows.getD (i - 1) default with
-        | gap g =>
-          rw [hr] at h; simp only at h; cases h
+        cases hj : b.joinGap with
+        | none => rw [hj] at h; cases h
+        | some g =>
+          rw [hj] at h; cases h
           refine ⟨?_, fun hnil => (by cases hnil)⟩
           intro x hx
           simp only [List.mem_cons, List.not_mem_nil, or_false] at hx
           subst hx
-          refine ⟨g, rfl, Or.inl ⟨i - 1, i, f, by omega, hrow, hf, getD_eq_gap hr, ?_⟩⟩
-          intro m hm1 hm2
-          have : m = i - 1 := by omega
-          subst this; exact ⟨g, getD_eq_gap hr⟩
-        | frag f' =>
-          rw [hr] at h; simp only at h
-          cases hj : b.joinGap with
-          | none => rw [hj] at h; cases h
-          | some g =>
-            rw [hj] at h; cases h
-            refine ⟨?_, fun hnil => (by cases hnil)⟩
-            intro x hx
-            simp only [List.mem_cons, List.not_mem_nil, or_false] at hx
-            subst hx
-            exact ⟨g, rfl, Or.inr hj⟩
+          exact ⟨g, rfl, Or.inr hj⟩
 
 theorem foldlM_missStep (b : Build) (rows : List Row) (ps : List (Nat × Row)) :
     ∀ (out : List Row) (la fi : Option Nat) (out' : List Row) (la' fi' : Option Nat),
